@@ -57,6 +57,25 @@ def run(ctx):
         os.symlink(reloc, link)
         modes += [('symlink-override', {'op': 'load', 'spec': lib, 'env': link}, None),
                   ('symlink-path', {'op': 'load', 'spec': os.path.join(link, lib, 'library.yaml')}, None)]
+        # a relocated copy whose FILES are symbolic links into a flat store elsewhere (real directories, linked files)
+        flk = os.path.join(vlib.WORK, 'c14_filelinks')
+        store = os.path.join(vlib.WORK, 'c14_filestore')
+        if lib == gen.SHIPPED[0]:
+            for d_ in (flk, store):
+                if os.path.exists(d_):
+                    shutil.rmtree(d_)
+            os.makedirs(store)
+            k_ = 0
+            for root_, _, files_ in os.walk(reloc):
+                rel = os.path.relpath(root_, reloc)
+                os.makedirs(os.path.join(flk, rel), exist_ok=True)
+                for fn in files_:
+                    tgt = os.path.join(store, 'f%05d_%s' % (k_, fn))
+                    k_ += 1
+                    shutil.copyfile(os.path.join(root_, fn), tgt)
+                    os.symlink(tgt, os.path.join(flk, rel, fn))
+        modes += [('filelinks-override', {'op': 'load', 'spec': lib, 'env': flk}, None),
+                  ('filelinks-path', {'op': 'load', 'spec': os.path.join(flk, lib, 'library.yaml')}, None)]
         # loaded a second time by name after the first object was merged into (overwriting) from another shipped library
         others = [o for o in gen.SHIPPED if o != lib]
         modes += [('name-after-update', {'op': 'load', 'spec': lib, 'after_update': others[(gen.SHIPPED.index(lib) * 5 + 3) % len(others)]}, None)]
@@ -93,6 +112,10 @@ def run(ctx):
         for b in r['bad_eval']:
             ctx.violate('eval:%s:%s:%s' % (lib, b[0], b[1]), 'group %s of %s: %s at T=%r: %s' % (b[0], lib, b[1], b[2], b[3]), {'lib': lib, 'group': b[0], 'T': b[2]},
                         'finite plain number', b[3])
+        hist['entries_vs_yaml'] = hist.get('entries_vs_yaml', 0) + r.get('n_presence', 0)
+        for d_ in r.get('presence_diff', []):
+            ctx.violate('presence:%s:%s' % (lib, d_[0]), 'entry %s of %s: the data files give [H, S, Cp table] = %r, the loaded library has %r' % (d_[0], lib, d_[1], d_[2]),
+                        {'lib': lib, 'group': d_[0]}, d_[1], d_[2])
         for u in r['unreadable']:
             ctx.violate('pattern:%s:%s' % (lib, u[0]), 'a pattern of scheme %s is unreadable (%s)' % (lib, u[1]), {'lib': lib, 'pattern': u[0]}, 'readable', u[1])
         if r['remap_chains'] or r['remap_bad']:
